@@ -33,8 +33,10 @@ def run(ctx):
         "None.affine_coords", "None.projective_coords"})
     ctx.do(SI.rule_eig1, only={"Transformation.eigenvector", "Transformation.diagonalize"})
     ctx.do(SI.rule_svd1)
+    ctx.do(MI.rule_eigh2, ["geometry_tools/projective.py", "geometry_tools/utils/core.py", "geometry_tools/hyperbolic.py"])
     ctx.do(MI.rule_sgn1, ["geometry_tools/projective.py", "geometry_tools/utils/core.py"])
     ctx.do(DT.rule_cx1, ["geometry_tools/projective.py"])
+    ctx.do(DT.rule_lk3, ["geometry_tools/projective.py", "geometry_tools/utils/core.py"])
     ctx.do(SH.rule_hom1, parts=("proj", "proj-cx"), min_proved=6)
     ctx.do(u1, ENTRIES, min_functions=15)
     ctx.r.assume("affine maps, translations, intersections and eigenvectors "
